@@ -175,3 +175,27 @@ def reaches(g, start, pred):
                 return True
             work.append(y)
     return False
+
+
+def ctor_refs(f, names):
+    """tuple-struct constructors of `names` used as function values (`opt.map(PhysAddr)`): the aggregate is then built inside the
+    compiler-generated constructor function, not in a statement of `f`"""
+    out = []
+
+    def scan(o):
+        if isinstance(o, dict):
+            if o.get('k') == 'fn' and o.get('name') in names and 'constructor' in str((o.get('res') or {}).get('inst', '')):
+                out.append(o['name'])
+            for v in o.values():
+                scan(v)
+        elif isinstance(o, list):
+            for v in o:
+                scan(v)
+    for b in f['blocks']:
+        t = b['t']
+        if t and t['k'] == 'call':
+            scan(t['args'])
+        for s_ in b['s']:
+            if s_['k'] == 'assign':
+                scan(s_['rv'])
+    return out
